@@ -145,6 +145,17 @@ def seg_class(chunks):
     return cls or ['plain']
 
 
+def sig_class(chunks):
+    """the most specific description of the segmentation, for violation signatures."""
+    nf = [i for i, c in enumerate(chunks) if b'\n' not in c]
+    if not nf:
+        return 'every-chunk-ends-a-line' if all(c.endswith(b'\n') for c in chunks) else 'cut-inside-a-line'
+    if all(chunks[i].endswith(b'\r') and i + 1 < len(chunks) and chunks[i + 1].startswith(b'\n') for i in nf):
+        # every newline-free chunk is one that stops between CR and LF
+        return 'cr|lf-split'
+    return 'newline-free-chunk'
+
+
 def random_bits(rng, n, msg_type):
     return format(msg_type, '06b') + ''.join(rng.choice('01') for _ in range(n - 6))
 
@@ -419,7 +430,7 @@ def check_cases(ctx, cases, with_messages=False, variants=VARIANTS, samples=True
         # (b) oracle on read()
         bad = lines_oracle(lines, got)
         if bad:
-            rep.violation({'entry': 'SocketStream.read', 'component': 'lines', 'kind': bad[0], 'segmentation': classes[0]},
+            rep.violation({'entry': 'SocketStream.read', 'component': 'lines', 'kind': bad[0], 'segmentation': sig_class(chunks)},
                           f'{variant}.read() with recv() results {show(chunks)} (hex {[c.hex() for c in chunks][:6]}): {bad[1]}',
                           replay_data(lines, chunks, variant, 'read'))
         # (b') oracle on the delivered messages
@@ -433,7 +444,7 @@ def check_cases(ctx, cases, with_messages=False, variants=VARIANTS, samples=True
             badm = msgs_oracle(ref, msgs)
             if badm:
                 rep.violation({'entry': 'SocketStream.__iter__', 'component': 'messages', 'kind': badm[0],
-                               'segmentation': classes[0]},
+                               'segmentation': sig_class(chunks)},
                               f'iterating {variant} with recv() results {show(chunks)}: {badm[1]}; '
                               f'delivered raw = {show([bytes.fromhex(m[1] or "") for m in msgs])}',
                               replay_data(lines, chunks, variant, 'iter'))
